@@ -217,42 +217,67 @@ def pat(tu, f):
 # ============================================================================================
 WIDE = {'unsigned long', 'long', 'unsigned long long', 'long long'}
 NARROW = {'int', 'unsigned int', 'short', 'unsigned short', 'char', 'signed char', 'unsigned char'}
-R1_FUNCS = (r'^rkcommon::array3D::(longProduct|longIndex|coordsOf)$|'
+R1_FUNCS = (r'^rkcommon::array3D::(longProduct|longIndex|coordsOf|for_each)$|'
             r'^rkcommon::array3D::\w+<.*>::(indexOf|numElements)$|^rkcommon::array3D::ActualArray3D<.*>::get$|'
             r'^rkcommon::multidim_index_sequence<\d>::(flatten|reshape|total_indices)$|'
             r'^rkcommon::math::vec_t<.*>::long_product$')
 
 
 def check_typing(ctx, tu):
+    """also looks through calls into rkcommon::math helpers (reduce_mul, product, long_product, operators on vec_t):
+    a 32-bit product hidden in a callee overflows just the same"""
     R = 'R-C17-1'
     n = 0
     for f in find_fns(tu, R1_FUNCS):
-        inst = '%s %s' % (f['q'].replace('rkcommon::', ''), f['fty'])
+        inst = '%s %s' % (f['q'].replace('rkcommon::', ''), f['fty'][:90])
         bad = []
         ops = 0
-        for x in tu.walk(tu.body(f)):
-            if x.get('kind') != 'BinaryOperator' or x.get('opcode') not in ('*', '+'):
+        seen = set()
+        work = [(f, [])]
+        while work:
+            g, chain = work.pop()
+            if g['id'] in seen or len(chain) > 6:
                 continue
-            ks = tu.kids(x)
-            if len(ks) != 2:
-                continue
-            if any(tu.sd(tu.strip(k, casts=True)).get('cv') is not None or tu.sd(k).get('cv') is not None for k in ks):
-                continue
-            ct = tu.sd(x).get('ct', '')
-            if ct in WIDE:
-                ops += 1
-            elif ct in NARROW:
-                ops += 1
-                bad.append(x)
+            seen.add(g['id'])
+            top = tu.node(g['id']) or tu.body(g)
+            for x in tu.walk(top):
+                if 'id' not in x:
+                    continue
+                sd = tu.sd(x)
+                if sd.get('k') in ('call', 'ctor'):
+                    c = tu.callee_fn(x)
+                    if c is not None and c['q'].startswith('rkcommon::math::') and not c['dep']:
+                        work.append((c, chain + [(x, c)]))
+                if x.get('kind') != 'BinaryOperator' or x.get('opcode') not in ('*', '+'):
+                    continue
+                ks = tu.kids(x)
+                if len(ks) != 2:
+                    continue
+                if any(tu.sd(tu.strip(k, casts=True)).get('cv') is not None or tu.sd(k).get('cv') is not None for k in ks):
+                    continue
+                ct = sd.get('ct', '')
+                if ct in WIDE:
+                    ops += 1
+                elif ct in NARROW:
+                    ops += 1
+                    bad.append((x, chain))
         n += 1
         if bad:
-            x = bad[0]
-            ctx.violation(R, inst, '`%s` is evaluated in %d-bit `%s`: it overflows for extents whose product exceeds 2^31 before '
-                          'the result is widened' % (tu.show(x), 32 if 'int' in tu.sd(x).get('ct') else 16, tu.sd(x).get('ct')),
-                          tu.loc(x), key='%s|%s|%s|narrow-%s' % (R, tu.fn_file(f), pat(tu, f), x.get('opcode')))
+            x, chain = bad[0]
+            via = ''
+            loc = tu.loc(x)
+            if chain:
+                via = ' (reached through %s at %s)' % (' -> '.join(strip_targs(c['q']).replace('rkcommon::math::', '') for _, c in chain),
+                                                      tu.loc(chain[0][0]))
+                loc = tu.loc(chain[0][0])
+            ctx.violation(R, inst, '`%s` is evaluated in %d-bit `%s`%s: it overflows for extents whose product exceeds 2^31 before '
+                          'the result is widened or compared' % (tu.show(x), 32 if 'int' in tu.sd(x).get('ct') else 16, tu.sd(x).get('ct'), via),
+                          loc, key='%s|%s|%s|narrow-%s%s' % (R, tu.fn_file(f), pat(tu, f), x.get('opcode'), '-in-callee' if chain else ''),
+                          path=['%s: %s' % (tu.loc(cx), tu.show(cx)) for cx, _ in chain] + ['%s: %s' % (tu.loc(x), tu.show(x))])
         else:
-            ctx.ok(R, inst, '%d variable products/sums, all in 64-bit types' % ops, tu.fn_loc(f), nontrivial=ops > 0)
-    ctx.floor(R, n, 20, 'index functions instantiated by %s: 26 on the pinned tree' % AST_DRIVER)
+            ctx.ok(R, inst, '%d variable products/sums (callees in rkcommon::math included), all in 64-bit types' % ops, tu.fn_loc(f),
+                   nontrivial=ops > 0)
+    ctx.floor(R, n, 24, 'index functions instantiated by %s: 32 on the pinned tree' % AST_DRIVER)
 
 
 # ============================================================================================
@@ -458,6 +483,65 @@ def for_parts(tu, st):
     return [x if isinstance(x, dict) and x.get('kind') else None for x in inner]
 
 
+PRODUCTS = ('rkcommon::math::reduce_mul', 'rkcommon::math::vec_t::product', 'rkcommon::math::vec_t::long_product')
+
+
+def early_out(tu, st, lo, hi):
+    """`if (C) return;` in front of the loop nest: True if C implies an empty region (in exact arithmetic), a message if C
+    is a recognised wrong condition, None if not recognised"""
+    inner = [x for x in st.get('inner', []) if isinstance(x, dict) and x.get('kind')]
+    if len(inner) != 2:
+        return None
+    cond, then = inner
+    while then.get('kind') == 'CompoundStmt' and len(tu.kids(then)) == 1:
+        then = tu.kids(then)[0]
+    if then.get('kind') != 'ReturnStmt' or tu.kids(then):
+        return None
+    L, U = ('ref', 'ParmVarDecl', lo), ('ref', 'ParmVarDecl', hi)
+
+    def atom_ok(c):
+        c = drop_casts(c)
+        if c[0] != 'op' or c[1] not in ('<', '<=', '>', '>=', '=='):
+            return None
+        a, b = c[2] if len(c[2]) == 2 else (None, None)
+        rel = c[1]
+        if a is None:
+            return None
+        # product of the extent <= 0 / == 0
+        for x, y, r in ((a, b, rel), (b, a, {'<': '>', '<=': '>=', '>': '<', '>=': '<=', '==': '=='}[rel])):
+            if x[0] == 'call' and strip_targs(x[1]) in PRODUCTS and y == ('int', 0):
+                arg = x[3][0] if x[3] else x[2]
+                if arg == ('op', '-', (U, L)):
+                    if r in ('<=', '==', '<'):
+                        return True
+                    return 'returns early when the cell count of the region is %s 0, i.e. for non-empty regions' % r
+                if arg == ('op', '-', (L, U)):
+                    return 'early-out tests the product of lower - upper: its sign is not the emptiness of [lower, upper)'
+                return None
+        # component comparison  upper.c <= lower.c
+        if rel in ('>', '>='):
+            a, b = b, a
+            rel = {'>': '<', '>=': '<='}[rel]
+        if rel in ('<', '<=') and a[0] == 'mem' and b[0] == 'mem':
+            if a[1] == U and b[1] == L:
+                if a[2] == b[2]:
+                    return True
+                return 'early-out compares upper.%s with lower.%s: different components' % (a[2], b[2])
+            if a[1] == L and b[1] == U and a[2] == b[2]:
+                return 'returns early when lower.%s %s upper.%s, i.e. for non-empty extents' % (a[2], rel, b[2])
+        return None
+
+    c = nf(tu, cond)
+    parts = list(c[2]) if c[0] == 'op' and c[1] in ('||', '&&') else [c]
+    res = [atom_ok(x) for x in parts]
+    if any(r is None for r in res):
+        return None
+    for r in res:
+        if r is not True:
+            return r
+    return True
+
+
 def check_for_each(ctx, tu):
     R = 'R-C17-4'
     n = 0
@@ -473,8 +557,17 @@ def check_for_each(ctx, tu):
             cur = tu.kids(tu.body(f))
             level = 0
             loopvars = {}
+            # leading early-outs `if (C) return;` are fine when C implies that the region is empty
+            while len(cur) > 1 and cur[0].get('kind') == 'IfStmt':
+                verdict = early_out(tu, cur[0], lo, hi)
+                if verdict is None:
+                    und.append('statement before the loop nest is not a recognised early-out for an empty region: %s' % tu.show(cur[0])[:120])
+                    break
+                if verdict is not True:
+                    problems.append(('early-out', verdict))
+                cur = cur[1:]
             node = cur[0] if len(cur) == 1 else None
-            if node is None:
+            if node is None and not und:
                 und.append('body is not a single loop nest')
             while node is not None and node.get('kind') == 'ForStmt':
                 parts = for_parts(tu, node)
@@ -895,6 +988,9 @@ def check_adaptors(ctx, tu):
             xy0 = ('ctor', 'rkcommon::math::vec_t', (('mem', where, 'x'), ('mem', where, 'y'), ('int', 0)))
             if target == want_t and arg == xy0:
                 ctx.ok(R, inst, 'slice[clamp(where.z, 0, slice.size() - 1)]->get(vec3i(where.x, where.y, 0))', loc)
+            elif target == want_t and arg == where:
+                ctx.violation(R, inst, 'passes `where` (with its z) on to the slice instead of vec3i(where.x, where.y, 0): the cell read is '
+                              '(x, y, z) of slice z, which is (x, y, 0) only if the slice happens to collapse z itself', loc, key=key + 'cell')
             elif target[0] == 'deref' and target[1][0] == 'index' and target[1][1] == ('mem', this, slices):
                 ix = target[1][2]
                 if ix == z:
